@@ -163,6 +163,20 @@ func (s *Store) AddSourceSnapshot(ckpt *jobpb.SourceRunnerCheckpointCompleteRequ
 	return nil
 }
 
+// DiscardPendingCheckpoint abandons the checkpoint in progress, if any. The job
+// calls it when it starts a new assembly: the nodes of the previous assembly
+// will never complete that checkpoint, and while it is pending no new one can
+// be created. Acknowledgements that still arrive for it are rejected.
+func (s *Store) DiscardPendingCheckpoint() {
+	s.stateMu.Lock()
+	defer s.stateMu.Unlock()
+
+	if s.state.pendingSnapshot != nil {
+		s.log.Info("discarding pending checkpoint", "id", s.state.pendingSnapshot.id)
+		s.state.pendingSnapshot = nil
+	}
+}
+
 func (s *Store) RegisterSourceSplitter(splitter connectors.SourceSplitter) {
 	s.stateMu.Lock()
 	defer s.stateMu.Unlock()
